@@ -14,6 +14,11 @@
  *   f <name> <nmembers> <h|r>   define a made-up class object (hand-built static record | new_raw(Type))
  *   i <class> <maskhex>         append an instance of <class>; member j is a trap function iff bit j
  *   mk                          new(Type, name, size, instances...)  (+ an empty twin of the same name)
+ *   ri <class> <maskhex>        append an instance to the list of the next re-declaration (fresh object,
+ *                               members from the trap set of that declaration)
+ *   redeclare <name> <size>     construct_with(T, name, size, pending instances...) on the SAME type object;
+ *                               later answers "#k" index the new list, "old" = an instance of an earlier one,
+ *                               ",STALE=n" = n calls reached a trap function of an earlier declaration
  *   q  <E> <class> <m>          lookup on the run-time type; E in I T P Q M N R S =
  *                               instance type_instance implements type_implements method_at_offset
  *                               type_method_at_offset implements_method_at_offset type_implements_method_at_offset
@@ -133,101 +138,164 @@ static int record_intact(int i) {
   return n is NSNAP[i];
 }
 
-/* ---- trap functions: every member of every built-in class, with the member's real signature ------ */
+/* ---- trap functions: every member of every built-in class, with the member's real signature.
+ * NGEN complete sets: the instances of declaration g (0 = mk, g-th redeclare) use set g % NGEN, so a call that
+ * reaches a function of an earlier declaration of the same type is recognised (stale_hits). -------------- */
+#define NGEN 3
 static __thread int trap_calls = 0;
 static __thread int trap_last = -1;
-#define HIT(k, m) do { trap_calls++; trap_last = (k) * MAXMEM + (m); } while (0)
+static __thread int trap_gen = -1;
+static __thread int stale_hits = 0;
+static int cur_gen = 0;
+#define HIT(g, k, m) do { trap_calls++; trap_last = (k) * MAXMEM + (m); trap_gen = (g); \
+                          if ((g) isnt cur_gen % NGEN) { stale_hits++; } } while (0)
 static struct Example trap_examples[] = { { NULL, NULL } };
 static struct Method trap_methods[] = { { NULL, NULL, NULL } };
 static char trap_str[] = "trap";
+static var TRAPS[NGEN][NCLS][MAXMEM];
 
-static const char* t_doc0(void) { HIT(K_Doc, 0); return trap_str; }
-static const char* t_doc1(void) { HIT(K_Doc, 1); return trap_str; }
-static const char* t_doc2(void) { HIT(K_Doc, 2); return trap_str; }
-static const char* t_doc3(void) { HIT(K_Doc, 3); return trap_str; }
-static struct Example* t_doc4(void) { HIT(K_Doc, 4); return trap_examples; }
-static struct Method* t_doc5(void) { HIT(K_Doc, 5); return trap_methods; }
-static int t_help0(var a, var b, int c) { HIT(K_Help, 0); return c; }
-static var t_cast0(var a, var b) { HIT(K_Cast, 0); return a; }
-static size_t t_size0(void) { HIT(K_Size, 0); return 4242; }
-static var t_alloc0(void) { HIT(K_Alloc, 0); return NULL; }
-static void t_alloc1(var a) { HIT(K_Alloc, 1); }
-static void t_new0(var a, var b) { HIT(K_New, 0); }
-static void t_new1(var a) { HIT(K_New, 1); }
-static var t_copy0(var a) { HIT(K_Copy, 0); return a; }
-static void t_assign0(var a, var b) { HIT(K_Assign, 0); }
-static void t_swap0(var a, var b) { HIT(K_Swap, 0); }
-static int t_cmp0(var a, var b) { HIT(K_Cmp, 0); return 0; }
-static uint64_t t_hash0(var a) { HIT(K_Hash, 0); return 0; }
-static size_t t_len0(var a) { HIT(K_Len, 0); return 7; }
-static var t_iter0(var a) { HIT(K_Iter, 0); return Terminal; }
-static var t_iter1(var a, var b) { HIT(K_Iter, 1); return Terminal; }
-static var t_iter2(var a) { HIT(K_Iter, 2); return Terminal; }
-static var t_iter3(var a, var b) { HIT(K_Iter, 3); return Terminal; }
-static var t_iter4(var a) { HIT(K_Iter, 4); return Int; }
-static void t_push0(var a, var b) { HIT(K_Push, 0); }
-static void t_push1(var a) { HIT(K_Push, 1); }
-static void t_push2(var a, var b, var c) { HIT(K_Push, 2); }
-static void t_push3(var a, var b) { HIT(K_Push, 3); }
-static void t_concat0(var a, var b) { HIT(K_Concat, 0); }
-static void t_concat1(var a, var b) { HIT(K_Concat, 1); }
-static var t_get0(var a, var b) { HIT(K_Get, 0); return NULL; }
-static void t_get1(var a, var b, var c) { HIT(K_Get, 1); }
-static bool t_get2(var a, var b) { HIT(K_Get, 2); return false; }
-static void t_get3(var a, var b) { HIT(K_Get, 3); }
-static var t_get4(var a) { HIT(K_Get, 4); return Int; }
-static var t_get5(var a) { HIT(K_Get, 5); return Int; }
-static void t_sort0(var a, bool (*f)(var, var)) { HIT(K_Sort, 0); }
-static void t_resize0(var a, size_t n) { HIT(K_Resize, 0); }
-static char* t_cstr0(var a) { HIT(K_C_Str, 0); return trap_str; }
-static int64_t t_cint0(var a) { HIT(K_C_Int, 0); return 7; }
-static double t_cfloat0(var a) { HIT(K_C_Float, 0); return 7.0; }
-static var t_stream0(var a, var b, var c) { HIT(K_Stream, 0); return a; }
-static void t_stream1(var a) { HIT(K_Stream, 1); }
-static void t_stream2(var a, int64_t b, int c) { HIT(K_Stream, 2); }
-static int64_t t_stream3(var a) { HIT(K_Stream, 3); return 0; }
-static void t_stream4(var a) { HIT(K_Stream, 4); }
-static bool t_stream5(var a) { HIT(K_Stream, 5); return true; }
-static size_t t_stream6(var a, void* b, size_t c) { HIT(K_Stream, 6); return 0; }
-static size_t t_stream7(var a, void* b, size_t c) { HIT(K_Stream, 7); return 0; }
-static void t_pointer0(var a, var b) { HIT(K_Pointer, 0); }
-static var t_pointer1(var a) { HIT(K_Pointer, 1); return NULL; }
-static var t_call0(var a, var b) { HIT(K_Call, 0); return NULL; }
-static int t_format0(var a, int b, const char* c, va_list d) { HIT(K_Format, 0); return b; }
-static int t_format1(var a, int b, const char* c, va_list d) { HIT(K_Format, 1); return b; }
-static int t_show0(var a, var b, int c) { HIT(K_Show, 0); return c; }
-static int t_show1(var a, var b, int c) { HIT(K_Show, 1); return c; }
-static var t_current0(void) { HIT(K_Current, 0); return NULL; }
-static void t_start0(var a) { HIT(K_Start, 0); }
-static void t_start1(var a) { HIT(K_Start, 1); }
-static void t_start2(var a) { HIT(K_Start, 2); }
-static bool t_start3(var a) { HIT(K_Start, 3); return false; }
-static void t_lock0(var a) { HIT(K_Lock, 0); }
-static void t_lock1(var a) { HIT(K_Lock, 1); }
-static bool t_lock2(var a) { HIT(K_Lock, 2); return true; }
-static void t_mark0(var a, var b, void (*f)(var, void*)) { HIT(K_Mark, 0); }
-static void t_filler(void) { HIT(NCLS, 0); }      /* members of made-up classes: nothing may call them */
+#define DEF_TRAPS(G) \
+  static const char* t##G##_doc0(void) { HIT(G, K_Doc, 0); return trap_str; } \
+  static const char* t##G##_doc1(void) { HIT(G, K_Doc, 1); return trap_str; } \
+  static const char* t##G##_doc2(void) { HIT(G, K_Doc, 2); return trap_str; } \
+  static const char* t##G##_doc3(void) { HIT(G, K_Doc, 3); return trap_str; } \
+  static struct Example* t##G##_doc4(void) { HIT(G, K_Doc, 4); return trap_examples; } \
+  static struct Method* t##G##_doc5(void) { HIT(G, K_Doc, 5); return trap_methods; } \
+  static int t##G##_help0(var a, var b, int c) { HIT(G, K_Help, 0); return c; } \
+  static var t##G##_cast0(var a, var b) { HIT(G, K_Cast, 0); return a; } \
+  static size_t t##G##_size0(void) { HIT(G, K_Size, 0); return 4242; } \
+  static var t##G##_alloc0(void) { HIT(G, K_Alloc, 0); return NULL; } \
+  static void t##G##_alloc1(var a) { HIT(G, K_Alloc, 1); } \
+  static void t##G##_new0(var a, var b) { HIT(G, K_New, 0); } \
+  static void t##G##_new1(var a) { HIT(G, K_New, 1); } \
+  static var t##G##_copy0(var a) { HIT(G, K_Copy, 0); return a; } \
+  static void t##G##_assign0(var a, var b) { HIT(G, K_Assign, 0); } \
+  static void t##G##_swap0(var a, var b) { HIT(G, K_Swap, 0); } \
+  static int t##G##_cmp0(var a, var b) { HIT(G, K_Cmp, 0); return 0; } \
+  static uint64_t t##G##_hash0(var a) { HIT(G, K_Hash, 0); return 0; } \
+  static size_t t##G##_len0(var a) { HIT(G, K_Len, 0); return 7; } \
+  static var t##G##_iter0(var a) { HIT(G, K_Iter, 0); return Terminal; } \
+  static var t##G##_iter1(var a, var b) { HIT(G, K_Iter, 1); return Terminal; } \
+  static var t##G##_iter2(var a) { HIT(G, K_Iter, 2); return Terminal; } \
+  static var t##G##_iter3(var a, var b) { HIT(G, K_Iter, 3); return Terminal; } \
+  static var t##G##_iter4(var a) { HIT(G, K_Iter, 4); return Int; } \
+  static void t##G##_push0(var a, var b) { HIT(G, K_Push, 0); } \
+  static void t##G##_push1(var a) { HIT(G, K_Push, 1); } \
+  static void t##G##_push2(var a, var b, var c) { HIT(G, K_Push, 2); } \
+  static void t##G##_push3(var a, var b) { HIT(G, K_Push, 3); } \
+  static void t##G##_concat0(var a, var b) { HIT(G, K_Concat, 0); } \
+  static void t##G##_concat1(var a, var b) { HIT(G, K_Concat, 1); } \
+  static var t##G##_get0(var a, var b) { HIT(G, K_Get, 0); return NULL; } \
+  static void t##G##_get1(var a, var b, var c) { HIT(G, K_Get, 1); } \
+  static bool t##G##_get2(var a, var b) { HIT(G, K_Get, 2); return false; } \
+  static void t##G##_get3(var a, var b) { HIT(G, K_Get, 3); } \
+  static var t##G##_get4(var a) { HIT(G, K_Get, 4); return Int; } \
+  static var t##G##_get5(var a) { HIT(G, K_Get, 5); return Int; } \
+  static void t##G##_sort0(var a, bool (*f)(var, var)) { HIT(G, K_Sort, 0); } \
+  static void t##G##_resize0(var a, size_t n) { HIT(G, K_Resize, 0); } \
+  static char* t##G##_cstr0(var a) { HIT(G, K_C_Str, 0); return trap_str; } \
+  static int64_t t##G##_cint0(var a) { HIT(G, K_C_Int, 0); return 7; } \
+  static double t##G##_cfloat0(var a) { HIT(G, K_C_Float, 0); return 7.0; } \
+  static var t##G##_stream0(var a, var b, var c) { HIT(G, K_Stream, 0); return a; } \
+  static void t##G##_stream1(var a) { HIT(G, K_Stream, 1); } \
+  static void t##G##_stream2(var a, int64_t b, int c) { HIT(G, K_Stream, 2); } \
+  static int64_t t##G##_stream3(var a) { HIT(G, K_Stream, 3); return 0; } \
+  static void t##G##_stream4(var a) { HIT(G, K_Stream, 4); } \
+  static bool t##G##_stream5(var a) { HIT(G, K_Stream, 5); return true; } \
+  static size_t t##G##_stream6(var a, void* b, size_t c) { HIT(G, K_Stream, 6); return 0; } \
+  static size_t t##G##_stream7(var a, void* b, size_t c) { HIT(G, K_Stream, 7); return 0; } \
+  static void t##G##_pointer0(var a, var b) { HIT(G, K_Pointer, 0); } \
+  static var t##G##_pointer1(var a) { HIT(G, K_Pointer, 1); return NULL; } \
+  static var t##G##_call0(var a, var b) { HIT(G, K_Call, 0); return NULL; } \
+  static int t##G##_format0(var a, int b, const char* c, va_list d) { HIT(G, K_Format, 0); return b; } \
+  static int t##G##_format1(var a, int b, const char* c, va_list d) { HIT(G, K_Format, 1); return b; } \
+  static int t##G##_show0(var a, var b, int c) { HIT(G, K_Show, 0); return c; } \
+  static int t##G##_show1(var a, var b, int c) { HIT(G, K_Show, 1); return c; } \
+  static var t##G##_current0(void) { HIT(G, K_Current, 0); return NULL; } \
+  static void t##G##_start0(var a) { HIT(G, K_Start, 0); } \
+  static void t##G##_start1(var a) { HIT(G, K_Start, 1); } \
+  static void t##G##_start2(var a) { HIT(G, K_Start, 2); } \
+  static bool t##G##_start3(var a) { HIT(G, K_Start, 3); return false; } \
+  static void t##G##_lock0(var a) { HIT(G, K_Lock, 0); } \
+  static void t##G##_lock1(var a) { HIT(G, K_Lock, 1); } \
+  static bool t##G##_lock2(var a) { HIT(G, K_Lock, 2); return true; } \
+  static void t##G##_mark0(var a, var b, void (*f)(var, void*)) { HIT(G, K_Mark, 0); } \
+  static void init_traps_##G(void) { \
+    TRAPS[G][K_Doc][0] = (var)t##G##_doc0; \
+    TRAPS[G][K_Doc][1] = (var)t##G##_doc1; \
+    TRAPS[G][K_Doc][2] = (var)t##G##_doc2; \
+    TRAPS[G][K_Doc][3] = (var)t##G##_doc3; \
+    TRAPS[G][K_Doc][4] = (var)t##G##_doc4; \
+    TRAPS[G][K_Doc][5] = (var)t##G##_doc5; \
+    TRAPS[G][K_Help][0] = (var)t##G##_help0; \
+    TRAPS[G][K_Cast][0] = (var)t##G##_cast0; \
+    TRAPS[G][K_Size][0] = (var)t##G##_size0; \
+    TRAPS[G][K_Alloc][0] = (var)t##G##_alloc0; \
+    TRAPS[G][K_Alloc][1] = (var)t##G##_alloc1; \
+    TRAPS[G][K_New][0] = (var)t##G##_new0; \
+    TRAPS[G][K_New][1] = (var)t##G##_new1; \
+    TRAPS[G][K_Copy][0] = (var)t##G##_copy0; \
+    TRAPS[G][K_Assign][0] = (var)t##G##_assign0; \
+    TRAPS[G][K_Swap][0] = (var)t##G##_swap0; \
+    TRAPS[G][K_Cmp][0] = (var)t##G##_cmp0; \
+    TRAPS[G][K_Hash][0] = (var)t##G##_hash0; \
+    TRAPS[G][K_Len][0] = (var)t##G##_len0; \
+    TRAPS[G][K_Iter][0] = (var)t##G##_iter0; \
+    TRAPS[G][K_Iter][1] = (var)t##G##_iter1; \
+    TRAPS[G][K_Iter][2] = (var)t##G##_iter2; \
+    TRAPS[G][K_Iter][3] = (var)t##G##_iter3; \
+    TRAPS[G][K_Iter][4] = (var)t##G##_iter4; \
+    TRAPS[G][K_Push][0] = (var)t##G##_push0; \
+    TRAPS[G][K_Push][1] = (var)t##G##_push1; \
+    TRAPS[G][K_Push][2] = (var)t##G##_push2; \
+    TRAPS[G][K_Push][3] = (var)t##G##_push3; \
+    TRAPS[G][K_Concat][0] = (var)t##G##_concat0; \
+    TRAPS[G][K_Concat][1] = (var)t##G##_concat1; \
+    TRAPS[G][K_Get][0] = (var)t##G##_get0; \
+    TRAPS[G][K_Get][1] = (var)t##G##_get1; \
+    TRAPS[G][K_Get][2] = (var)t##G##_get2; \
+    TRAPS[G][K_Get][3] = (var)t##G##_get3; \
+    TRAPS[G][K_Get][4] = (var)t##G##_get4; \
+    TRAPS[G][K_Get][5] = (var)t##G##_get5; \
+    TRAPS[G][K_Sort][0] = (var)t##G##_sort0; \
+    TRAPS[G][K_Resize][0] = (var)t##G##_resize0; \
+    TRAPS[G][K_C_Str][0] = (var)t##G##_cstr0; \
+    TRAPS[G][K_C_Int][0] = (var)t##G##_cint0; \
+    TRAPS[G][K_C_Float][0] = (var)t##G##_cfloat0; \
+    TRAPS[G][K_Stream][0] = (var)t##G##_stream0; \
+    TRAPS[G][K_Stream][1] = (var)t##G##_stream1; \
+    TRAPS[G][K_Stream][2] = (var)t##G##_stream2; \
+    TRAPS[G][K_Stream][3] = (var)t##G##_stream3; \
+    TRAPS[G][K_Stream][4] = (var)t##G##_stream4; \
+    TRAPS[G][K_Stream][5] = (var)t##G##_stream5; \
+    TRAPS[G][K_Stream][6] = (var)t##G##_stream6; \
+    TRAPS[G][K_Stream][7] = (var)t##G##_stream7; \
+    TRAPS[G][K_Pointer][0] = (var)t##G##_pointer0; \
+    TRAPS[G][K_Pointer][1] = (var)t##G##_pointer1; \
+    TRAPS[G][K_Call][0] = (var)t##G##_call0; \
+    TRAPS[G][K_Format][0] = (var)t##G##_format0; \
+    TRAPS[G][K_Format][1] = (var)t##G##_format1; \
+    TRAPS[G][K_Show][0] = (var)t##G##_show0; \
+    TRAPS[G][K_Show][1] = (var)t##G##_show1; \
+    TRAPS[G][K_Current][0] = (var)t##G##_current0; \
+    TRAPS[G][K_Start][0] = (var)t##G##_start0; \
+    TRAPS[G][K_Start][1] = (var)t##G##_start1; \
+    TRAPS[G][K_Start][2] = (var)t##G##_start2; \
+    TRAPS[G][K_Start][3] = (var)t##G##_start3; \
+    TRAPS[G][K_Lock][0] = (var)t##G##_lock0; \
+    TRAPS[G][K_Lock][1] = (var)t##G##_lock1; \
+    TRAPS[G][K_Lock][2] = (var)t##G##_lock2; \
+    TRAPS[G][K_Mark][0] = (var)t##G##_mark0; \
+  }
+DEF_TRAPS(0)
+DEF_TRAPS(1)
+DEF_TRAPS(2)
+static void t_filler(void) { HIT(NGEN, NCLS, 0); }     /* members of made-up classes: nothing may call them */
 
-static var TRAPS[NCLS][MAXMEM];
 static void init_traps(void) {
-#define S(k, m, f) TRAPS[k][m] = (var)(f)
-  S(K_Doc,0,t_doc0); S(K_Doc,1,t_doc1); S(K_Doc,2,t_doc2); S(K_Doc,3,t_doc3); S(K_Doc,4,t_doc4); S(K_Doc,5,t_doc5);
-  S(K_Help,0,t_help0); S(K_Cast,0,t_cast0); S(K_Size,0,t_size0); S(K_Alloc,0,t_alloc0); S(K_Alloc,1,t_alloc1);
-  S(K_New,0,t_new0); S(K_New,1,t_new1); S(K_Copy,0,t_copy0); S(K_Assign,0,t_assign0); S(K_Swap,0,t_swap0);
-  S(K_Cmp,0,t_cmp0); S(K_Hash,0,t_hash0); S(K_Len,0,t_len0);
-  S(K_Iter,0,t_iter0); S(K_Iter,1,t_iter1); S(K_Iter,2,t_iter2); S(K_Iter,3,t_iter3); S(K_Iter,4,t_iter4);
-  S(K_Push,0,t_push0); S(K_Push,1,t_push1); S(K_Push,2,t_push2); S(K_Push,3,t_push3);
-  S(K_Concat,0,t_concat0); S(K_Concat,1,t_concat1);
-  S(K_Get,0,t_get0); S(K_Get,1,t_get1); S(K_Get,2,t_get2); S(K_Get,3,t_get3); S(K_Get,4,t_get4); S(K_Get,5,t_get5);
-  S(K_Sort,0,t_sort0); S(K_Resize,0,t_resize0); S(K_C_Str,0,t_cstr0); S(K_C_Int,0,t_cint0); S(K_C_Float,0,t_cfloat0);
-  S(K_Stream,0,t_stream0); S(K_Stream,1,t_stream1); S(K_Stream,2,t_stream2); S(K_Stream,3,t_stream3);
-  S(K_Stream,4,t_stream4); S(K_Stream,5,t_stream5); S(K_Stream,6,t_stream6); S(K_Stream,7,t_stream7);
-  S(K_Pointer,0,t_pointer0); S(K_Pointer,1,t_pointer1); S(K_Call,0,t_call0);
-  S(K_Format,0,t_format0); S(K_Format,1,t_format1); S(K_Show,0,t_show0); S(K_Show,1,t_show1);
-  S(K_Current,0,t_current0); S(K_Start,0,t_start0); S(K_Start,1,t_start1); S(K_Start,2,t_start2); S(K_Start,3,t_start3);
-  S(K_Lock,0,t_lock0); S(K_Lock,1,t_lock1); S(K_Lock,2,t_lock2); S(K_Mark,0,t_mark0);
-#undef S
-  for (int k = 0; k < NCLS; k++) { for (int m = 0; m < CLS[k].nmem; m++) { if (TRAPS[k][m] is NULL) { bug("trap table incomplete"); } } }
+  init_traps_0(); init_traps_1(); init_traps_2();
+  for (int g = 0; g < NGEN; g++) { for (int k = 0; k < NCLS; k++) { for (int m = 0; m < CLS[k].nmem; m++) {
+    if (TRAPS[g][k][m] is NULL) { bug("trap table incomplete"); } } } }
 }
 
 /* ---- one lookup through one public entry point ----------------------------------------------------- */
@@ -396,7 +464,9 @@ static void op_static(char** w, int n) {
 struct Filler { char name[40]; int nmem; var cls; };
 struct Inst { int k; int fi; int nmem; unsigned mask; var obj; };
 static struct Filler fillers[MAXFILL]; static int nfillers = 0;
-static struct Inst insts[MAXINST]; static int ninst = 0;
+static struct Inst insts[MAXINST]; static int ninst = 0;      /* the current declaration of RT */
+static struct Inst pend[MAXINST]; static int npend = 0;       /* instance list of the next redeclare */
+static var* old_objs = NULL; static int nold = 0, cold_cap = 0;   /* instances of earlier declarations */
 static char rt_name[64]; static int64_t rt_size = 0; static bool rt_started = false, rt_made = false;
 static var* ROOTS;                           /* locals of case_child: visible to the collector */
 #define RT   (ROOTS[0])
@@ -460,17 +530,21 @@ static void op_filler(char** w, int n) {
   nfillers++;
   printf("ok\n");
 }
-static void op_inst(char** w, int n) {
-  if (n < 3 or ninst >= MAXINST or not rt_started or rt_made) { bug("i: arguments"); }
+/* i: instance of the first declaration (before mk); ri: instance of the next re-declaration (after mk).
+ * Every instance is a fresh object; its members point into the trap set of its own declaration. */
+static void op_inst(char** w, int n, bool re) {
+  if (n < 3 or not rt_started or (re ? not rt_made : rt_made)) { bug("i/ri: arguments or order"); }
+  if ((re ? npend : ninst) >= MAXINST) { bug("i/ri: too many instances"); }
   struct Target t;
   if (not resolve(w[1], &t) or (t.k < 0 and t.fi < 0)) { bug("i: unknown class"); }
-  struct Inst* ip = &insts[ninst];
+  struct Inst* ip = re ? &pend[npend] : &insts[ninst];
+  int g = (re ? cur_gen + 1 : 0) % NGEN;
   ip->k = t.k; ip->fi = t.fi; ip->nmem = t.nmem; ip->mask = (unsigned)strtoul(w[2], NULL, 16);
   ip->obj = fab(t.obj, MAXMEM * sizeof(var));
   for (int m = 0; m < t.nmem; m++) {
-    if ((ip->mask >> m) & 1) { ((var*)ip->obj)[m] = t.k >= 0 ? TRAPS[t.k][m] : (var)t_filler; }
+    if ((ip->mask >> m) & 1) { ((var*)ip->obj)[m] = t.k >= 0 ? TRAPS[g][t.k][m] : (var)t_filler; }
   }
-  ninst++;
+  if (re) { npend++; } else { ninst++; }
   printf("ok\n");
 }
 static bool make_rt(char* err, size_t cap) {
@@ -496,15 +570,37 @@ static void op_mk(void) {
   if (make_rt(err, sizeof err)) { printf("ok\n"); } else { printf("%s\n", err); }
 }
 
+/* redeclare <name> <size>: construct_with(RT, name, size, pending instances...) on the SAME type object */
+static void op_redeclare(char** w, int n) {
+  if (n < 3 or not rt_made) { bug("redeclare: arguments or order"); }
+  need_cello();
+  var* items = calloc(npend + 3, sizeof(var));
+  items[0] = fab_str(w[1]); items[1] = fab_int(strtoll(w[2], NULL, 10));
+  for (int i = 0; i < npend; i++) { items[2 + i] = pend[i].obj; }
+  items[2 + npend] = Terminal;
+  var args = fab_tuple(items);
+  var volatile ex = NULL; var volatile r = NULL;
+  try { r = construct_with(RT, args); } catch (e) { ex = e; }
+  if (ex) { printf("exc %s\n", c_str(ex)); return; }
+  if (r isnt RT) { printf("construct_with returned another object\n"); return; }
+  if (nold + ninst > cold_cap) { cold_cap = (nold + ninst) * 2 + 16; old_objs = realloc(old_objs, cold_cap * sizeof(var)); }
+  for (int i = 0; i < ninst; i++) { old_objs[nold++] = insts[i].obj; }
+  memcpy(insts, pend, sizeof(struct Inst) * npend);
+  ninst = npend; npend = 0; cur_gen++;
+  snprintf(rt_name, sizeof rt_name, "%s", w[1]); rt_size = strtoll(w[2], NULL, 10);
+  printf("ok\n");
+}
+
 static void ptr_tok(var r, char* out, size_t cap) {
   if (r is NULL) { snprintf(out, cap, "n"); return; }
   for (int i = 0; i < ninst; i++) { if (insts[i].obj is r) { snprintf(out, cap, "#%d", i); return; } }
+  for (int i = 0; i < nold; i++) { if (old_objs[i] is r) { snprintf(out, cap, "old"); return; } }
   snprintf(out, cap, "o");
 }
 
 /* q / sq / cast / tname: usable from any thread (no shared mutable state, answer into out) */
 static void exec_q(char** w, int n, char* out, size_t cap) {
-  int calls0 = trap_calls;
+  int calls0 = trap_calls, stale0 = stale_hits;
   size_t len0 = 0;
   out[0] = 0;
   if (strcmp(w[0], "q") is 0 and n >= 4) {
@@ -552,6 +648,8 @@ static void exec_q(char** w, int n, char* out, size_t cap) {
   else { bug("unknown lookup op"); }
   len0 = strlen(out);
   if (trap_calls isnt calls0) { snprintf(out + len0, cap - len0, ",TRAP=%d", trap_calls - calls0); }
+  len0 = strlen(out);
+  if (stale_hits isnt stale0) { snprintf(out + len0, cap - len0, ",STALE=%d", stale_hits - stale0); }
 }
 
 static void op_q(char** w, int n) {
@@ -565,9 +663,11 @@ static void op_q(char** w, int n) {
 
 static void op_tsize(void) {
   if (not rt_made) { bug("tsize before mk"); }
-  int c0 = trap_calls; size_t volatile s = 0; var volatile ex = NULL;
+  int c0 = trap_calls, st0 = stale_hits; size_t volatile s = 0; var volatile ex = NULL;
   try { s = size(RT); } catch (e) { ex = e; }
-  if (ex) { printf("%s\n", c_str(ex)); } else { printf("size=%zu traps=%d\n", (size_t)s, trap_calls - c0); }
+  if (ex) { printf("%s\n", c_str(ex)); }
+  else if (stale_hits isnt st0) { printf("size=%zu traps=%d,STALE=%d\n", (size_t)s, trap_calls - c0, stale_hits - st0); }
+  else { printf("size=%zu traps=%d\n", (size_t)s, trap_calls - c0); }
 }
 
 static bool api_cmp(var a, var b) { return false; }
@@ -631,14 +731,14 @@ static void op_api(char** w, int n) {
   if (n < 3 or not rt_made) { bug("api: arguments"); }
   int k = class_index(w[1]); int m = atoi(w[2]);
   if (k < 0 or m < 0 or m >= CLS[k].nmem) { bug("api: class/member"); }
-  int c0 = trap_calls; var volatile ex = NULL;
+  int c0 = trap_calls, st0 = stale_hits; var volatile ex = NULL;
   trap_last = -1;
   try { api_call(k * 8 + m); } catch (e) { ex = e; }
   int d = exc_depth();
   char out[96];
   if (ex) { snprintf(out, sizeof out, "%s", strcmp(c_str(ex), "ClassError") is 0 ? "C" : c_str(ex)); if (trap_calls isnt c0) { strcat(out, ",TRAP"); } }
-  else if (trap_calls is c0 + 1 and trap_last is k * MAXMEM + m) { snprintf(out, sizeof out, "k"); }
-  else { snprintf(out, sizeof out, "x,calls=%d,last=%d", trap_calls - c0, trap_last); }
+  else if (trap_calls is c0 + 1 and trap_last is k * MAXMEM + m and stale_hits is st0) { snprintf(out, sizeof out, "k"); }
+  else { snprintf(out, sizeof out, "x,calls=%d,last=%d,STALE=%d", trap_calls - c0, trap_last, stale_hits - st0); }
   if (d isnt 0) { printf("%s depth=%d\n", out, d); } else { printf("%s\n", out); }
 }
 
@@ -716,7 +816,9 @@ static void case_child(char** lines, int nlines) {
     }
     else if (strcmp(op, "rt") is 0) { op_rt(w, n); }
     else if (strcmp(op, "f") is 0) { op_filler(w, n); }
-    else if (strcmp(op, "i") is 0) { op_inst(w, n); }
+    else if (strcmp(op, "i") is 0) { op_inst(w, n, false); }
+    else if (strcmp(op, "ri") is 0) { op_inst(w, n, true); }
+    else if (strcmp(op, "redeclare") is 0) { op_redeclare(w, n); }
     else if (strcmp(op, "mk") is 0) { op_mk(); }
     else if (strcmp(op, "q") is 0 or strcmp(op, "sq") is 0 or strcmp(op, "cast") is 0 or strcmp(op, "tname") is 0) { op_q(w, n); }
     else if (strcmp(op, "tsize") is 0) { need_cello(); op_tsize(); }
